@@ -247,3 +247,462 @@ Proof.
   pose proof (Rle_0_sqr (d1 * q2 - d2 * q1)) as H3. unfold Rsqr in H3. nra.
 Qed.
 
+Lemma csoft_abs d t : 0 <= t ->
+  cabs (csoft d t) = reluR (cabs d - t) /\ cnorm2 (csub d (csoft d t)) = sq (cabs d - reluR (cabs d - t)).
+Proof.
+  intros Ht. unfold csoft, csgn. set (m := reluR (cabs d - t)).
+  pose proof (reluR_nonneg (cabs d - t)) as Hm. fold m in Hm.
+  destruct (Req_EM_T (cabs d) 0) as [E|E].
+  - assert (Em : m = 0).
+    { unfold m, reluR. rewrite E. apply Rmax_right. lra. }
+    pose proof (cabs_eq_0 _ E) as ->. rewrite Em. split.
+    + rewrite cabs_scale, cabs_0. ring.
+    + rewrite cabs_0. unfold cnorm2, csub, cscale, sq; cbn. ring.
+  - pose proof (cabs_nonneg d) as Hr. pose proof (cabs_sq d) as Er. unfold cnorm2 in Er.
+    set (r := cabs d) in *. destruct d as [d1 d2]; cbn [fst snd] in *.
+    assert (Hr0 : 0 < r) by lra.
+    split.
+    + apply cabs_unique; [exact Hm|]. unfold cnorm2, cscale; cbn [fst snd].
+      replace (m * (d1 / r) * (m * (d1 / r)) + m * (d2 / r) * (m * (d2 / r)))
+        with (m * m * ((d1 * d1 + d2 * d2) / (r * r))) by (field; lra).
+      rewrite <- Er. field. lra.
+    + unfold cnorm2, csub, cscale, sq; cbn [fst snd].
+      replace ((d1 - m * (d1 / r)) * (d1 - m * (d1 / r)) + (d2 - m * (d2 / r)) * (d2 - m * (d2 / r)))
+        with ((d1 * d1 + d2 * d2) * ((1 - m / r) * (1 - m / r))) by (field; lra).
+      rewrite <- Er. field. lra.
+Qed.
+
+(* the complex soft-threshold (on the modulus) is the minimiser of  t |q| + 1/2 |d - q|^2  over q in C *)
+Lemma csoft_opt d q t : 0 <= t ->
+  t * cabs (csoft d t) + / 2 * cnorm2 (csub d (csoft d t)) <= t * cabs q + / 2 * cnorm2 (csub d q).
+Proof.
+  intros Ht. destruct (csoft_abs d t Ht) as [E1 E2]. rewrite E1, E2.
+  pose proof (cs2 d q) as CS. pose proof (cabs_nonneg d) as Hr. pose proof (cabs_nonneg q) as Hs.
+  pose proof (cabs_sq d) as Er. pose proof (cabs_sq q) as Es.
+  assert (En : cnorm2 (csub d q) = cnorm2 d - 2 * (fst d * fst q + snd d * snd q) + cnorm2 q).
+  { unfold cnorm2, csub; cbn. ring. }
+  rewrite En, <- Er, <- Es. set (r := cabs d) in *. set (s := cabs q) in *.
+  set (ip := fst d * fst q + snd d * snd q) in *.
+  unfold reluR, Rmax, sq. destruct (Rle_dec (r - t) 0) as [H|H].
+  - nra.
+  - pose proof (Rle_0_sqr (s - r + t)) as H3. unfold Rsqr in H3. nra.
+Qed.
+
+Definition cobj (sigma fval : R) (x p : C) : R := sigma * fval + / 2 * cnorm2 (csub x p).
+
+Lemma csub_add_cancel a b : csub (cadd a b) b = a.
+Proof. destruct a, b; unfold csub, cadd; cbn. f_equal; ring. Qed.
+
+Lemma csub_shift x b p : csub x p = csub (csub x b) (csub p b).
+Proof. destruct x, b, p; unfold csub; cbn. f_equal; ring. Qed.
+
+Lemma cl1_prox_opt n w b sigma x p : 0 < n -> 0 <= sigma ->
+  cobj sigma (cl1_val w b (cl1_prox n w b sigma x) / n) x (cl1_prox n w b sigma x)
+  <= cobj sigma (cl1_val w b p / n) x p.
+Proof.
+  intros Hn Hs. unfold cobj, cl1_val, cl1_prox.
+  assert (Hin : 0 < / n) by (apply Rinv_0_lt_compat; lra).
+  rewrite cabs_scale. rewrite (Rabs_pos_eq (sigma / n)) by (unfold Rdiv; apply Rmult_le_pos; lra).
+  set (t := sigma / n * cabs w).
+  assert (Ht : 0 <= t) by (unfold t, Rdiv; apply Rmult_le_pos; [apply Rmult_le_pos; lra|apply cabs_nonneg]).
+  pose proof (csoft_opt (csub x b) (csub p b) t Ht) as H.
+  rewrite !cabs_mul, csub_add_cancel.
+  rewrite (csub_shift x b (cadd _ b)), csub_add_cancel. rewrite (csub_shift x b p).
+  replace (sigma * (cabs w * cabs (csoft (csub x b) t) / n)) with (t * cabs (csoft (csub x b) t)) by (unfold t; field; lra).
+  replace (sigma * (cabs w * cabs (csub p b) / n)) with (t * cabs (csub p b)) by (unfold t; field; lra).
+  exact H.
+Qed.
+
+Lemma csgn_abs d : cscale (cabs d) (csgn d) = d.
+Proof.
+  unfold csgn. destruct (Req_EM_T (cabs d) 0) as [E|E].
+  - rewrite (cabs_eq_0 _ E). unfold cscale; cbn. f_equal; ring.
+  - destruct d as [d1 d2]; unfold cscale; cbn [fst snd]. f_equal; field; exact E.
+Qed.
+
+Lemma csgn_scale s d : 0 < s -> csgn (cscale (/ s) d) = csgn d.
+Proof.
+  intros Hs. assert (Hi : 0 < / s) by (apply Rinv_0_lt_compat; lra).
+  unfold csgn. rewrite cabs_scale, (Rabs_pos_eq (/ s)) by lra.
+  pose proof (cabs_nonneg d) as Hd.
+  destruct (Req_EM_T (/ s * cabs d) 0) as [E|E], (Req_EM_T (cabs d) 0) as [E'|E']; try reflexivity.
+  - exfalso. apply E'. nra.
+  - exfalso. apply E. rewrite E'. ring.
+  - destruct d as [d1 d2]; unfold cscale; cbn [fst snd]. f_equal; field; lra.
+Qed.
+
+Lemma cscale_cscale a b z : cscale a (cscale b z) = cscale (a * b) z.
+Proof. destruct z; unfold cscale; cbn. f_equal; ring. Qed.
+
+Lemma cscale_add_distr a b z : cadd (cscale a z) (cscale b z) = cscale (a + b) z.
+Proof. destruct z; unfold cscale, cadd; cbn. f_equal; ring. Qed.
+
+Lemma cl1_moreau n w b sigma x : 0 < n -> 0 < sigma ->
+  x = cadd (cl1_prox n w b sigma x) (cscale sigma (cl1_pcc n w b (/ sigma) (cscale (/ sigma) x))).
+Proof.
+  intros Hn Hs. unfold cl1_prox, cl1_pcc, csoft. cbv zeta.
+  assert (Hi : 0 < / sigma) by (apply Rinv_0_lt_compat; lra).
+  assert (Hin : 0 < / n) by (apply Rinv_0_lt_compat; lra).
+  pose proof (cabs_nonneg w) as Hw.
+  rewrite cabs_scale. rewrite (Rabs_pos_eq (sigma / n)) by (unfold Rdiv; apply Rmult_le_pos; lra).
+  set (t := sigma / n * cabs w).
+  assert (Ht : 0 <= t) by (unfold t, Rdiv; apply Rmult_le_pos; [apply Rmult_le_pos; lra|lra]).
+  replace (csub (cscale (/ sigma) x) (cscale (/ sigma) b)) with (cscale (/ sigma) (csub x b))
+    by (destruct x, b; unfold cscale, csub; cbn; f_equal; ring).
+  rewrite csgn_scale by assumption. rewrite cabs_scale, (Rabs_pos_eq (/ sigma)) by lra.
+  rewrite (Rabs_pos_eq (cabs w / n)) by (unfold Rdiv; apply Rmult_le_pos; lra).
+  rewrite cscale_cscale. set (d := csub x b). set (A := cabs d). pose proof (cabs_nonneg d) as HA. fold A in HA.
+  assert (E : sigma * Rmin (/ sigma * A) (cabs w / n) = Rmin A t).
+  { assert (Et : t = sigma * (cabs w / n)) by (unfold t; field; lra).
+    assert (EA : A = sigma * (/ sigma * A)) by (field; lra).
+    unfold Rmin. destruct (Rle_dec (/ sigma * A) (cabs w / n)), (Rle_dec A t); try (field; lra); try lra; exfalso; nra. }
+  rewrite E.
+  assert (E2 : reluR (A - t) + Rmin A t = A).
+  { unfold reluR, Rmax, Rmin. destruct (Rle_dec _ _), (Rle_dec _ _); lra. }
+  replace x with (cadd d b) at 1 by (unfold d; destruct x, b; unfold cadd, csub; cbn; f_equal; ring).
+  rewrite <- (csgn_abs d) at 1. fold A. rewrite <- E2 at 1.
+  destruct (csgn d) as [g1 g2], b as [b1 b2]. unfold cadd, cscale; cbn. f_equal; ring.
+Qed.
+
+(* ---- L2 complex ---- *)
+Lemma cl2_val_alt w b x : cl2_val w b x = cnorm2 w * cnorm2 (csub x b).
+Proof. unfold cl2_val, sq. rewrite cabs_mul. rewrite <- !cabs_sq. ring. Qed.
+
+Lemma cl2_prox_opt n w b sigma x p : 0 < n -> 0 <= sigma ->
+  cobj sigma (cl2_val w b (cl2_prox n w b sigma x) / n) x (cl2_prox n w b sigma x)
+  <= cobj sigma (cl2_val w b p / n) x p.
+Proof.
+  intros Hn Hs. unfold cobj. rewrite !cl2_val_alt. unfold cl2_prox. cbv zeta.
+  pose proof (cnorm2_nonneg w) as Hw. set (W := cnorm2 w) in *.
+  set (k := sigma * W / n).
+  assert (Hk : 0 <= k).
+  { unfold k, Rdiv. apply Rmult_le_pos; [apply Rmult_le_pos; lra|left; apply Rinv_0_lt_compat; lra]. }
+  replace (W * 2 * sigma / n) with (2 * k) by (unfold k; field; lra).
+  destruct x as [x1 x2], b as [b1 b2], p as [p1 p2].
+  pose proof (quad_opt k b1 x1 p1 Hk) as H1. pose proof (quad_opt k b2 x2 p2 Hk) as H2. cbv zeta in H1, H2.
+  unfold cnorm2, csub, cadd, cscale, sq in *; cbn [fst snd] in *.
+  replace (/ (1 + 2 * k) * (x1 + 2 * k * b1)) with ((x1 + 2 * k * b1) / (1 + 2 * k)) by (field; lra).
+  replace (/ (1 + 2 * k) * (x2 + 2 * k * b2)) with ((x2 + 2 * k * b2) / (1 + 2 * k)) by (field; lra).
+  set (q1 := (x1 + 2 * k * b1) / (1 + 2 * k)) in *. set (q2 := (x2 + 2 * k * b2) / (1 + 2 * k)) in *.
+  replace (sigma * (W * ((q1 - b1) * (q1 - b1) + (q2 - b2) * (q2 - b2)) / n))
+    with (k * ((q1 - b1) * (q1 - b1)) + k * ((q2 - b2) * (q2 - b2))) by (unfold k; field; lra).
+  replace (sigma * (W * ((p1 - b1) * (p1 - b1) + (p2 - b2) * (p2 - b2)) / n))
+    with (k * ((p1 - b1) * (p1 - b1)) + k * ((p2 - b2) * (p2 - b2))) by (unfold k; field; lra).
+  lra.
+Qed.
+
+Lemma cl2_moreau n w b sigma x : 0 < n -> 0 < sigma ->
+  x = cadd (cl2_prox n w b sigma x) (cscale sigma (cl2_pcc n w b (/ sigma) (cscale (/ sigma) x))).
+Proof.
+  intros Hn Hs. unfold cl2_prox, cl2_pcc. cbv zeta.
+  pose proof (cnorm2_nonneg w) as Hw. set (W := cnorm2 w) in *.
+  assert (Hin : 0 < / n) by (apply Rinv_0_lt_compat; lra).
+  assert (HWn : 0 <= W / n) by (unfold Rdiv; apply Rmult_le_pos; lra).
+  assert (Hi : 0 < / sigma) by (apply Rinv_0_lt_compat; lra).
+  assert (Hc : 0 <= W * 2 * sigma / n).
+  { replace (W * 2 * sigma / n) with (2 * sigma * (W / n)) by (field; lra). apply Rmult_le_pos; lra. }
+  destruct x as [x1 x2], b as [b1 b2]. unfold cadd, cscale, csub; cbn [fst snd].
+  f_equal; field; repeat split; try lra.
+  all: try (replace (n + W * 2 * sigma) with (n * (1 + W * 2 * sigma / n)) by (field; lra); apply Rmult_integral_contrapositive_currified; lra).
+  all: try (replace (n + 2 * W * sigma) with (n * (1 + W * 2 * sigma / n)) by (field; lra); apply Rmult_integral_contrapositive_currified; lra).
+Qed.
+
+(* ---- L1NormViewAsReal ---- *)
+Lemma l1r_prox_opt n wr wi b sigma x p : 0 < n -> 0 <= sigma ->
+  cobj sigma (l1r_val wr wi b (l1r_prox n wr wi b sigma x) / n) x (l1r_prox n wr wi b sigma x)
+  <= cobj sigma (l1r_val wr wi b p / n) x p.
+Proof.
+  intros Hn Hs. destruct x as [x1 x2], b as [b1 b2], p as [p1 p2].
+  pose proof (l1_prox_opt n wr b1 sigma x1 p1 Hn Hs) as H1.
+  pose proof (l1_prox_opt n wi b2 sigma x2 p2 Hn Hs) as H2.
+  unfold cobj, l1r_val, l1r_prox, cnorm2, csub, obj, l1_val, l1_prox, sq in *; cbn [fst snd] in *.
+  unfold Rdiv in *. rewrite !Rmult_plus_distr_r, !Rmult_plus_distr_l. lra.
+Qed.
+
+Lemma cfallback_moreau (prox : R -> C -> C) sigma x : 0 < sigma -> 1 / 100000000 <= / sigma ->
+  x = cadd (prox sigma x) (cscale sigma (cpcc_fallback prox (/ sigma) (cscale (/ sigma) x))).
+Proof.
+  intros Hs Ht. unfold cpcc_fallback. cbv zeta. rewrite tweak_id by assumption.
+  replace (1 / / sigma) with sigma by (field; lra).
+  rewrite cscale_cscale. replace (/ / sigma * / sigma) with 1 by (field; lra).
+  replace (cscale 1 x) with x by (destruct x; unfold cscale; cbn; f_equal; ring).
+  destruct x as [x1 x2], (prox sigma (x1, x2)) as [q1 q2]. unfold cadd, cscale, csub; cbn [fst snd].
+  f_equal; field; lra.
+Qed.
+
+Lemma czero_moreau sigma x : 0 < sigma -> x = cadd x (cscale sigma (czero_pcc (/ sigma) (cscale (/ sigma) x))).
+Proof.
+  intros Hs. unfold czero_pcc. destruct (Req_EM_T (/ sigma) 0) as [E|E].
+  - exfalso. apply (Rinv_neq_0_compat sigma); lra.
+  - destruct x; unfold cadd, cscale; cbn. f_equal; ring.
+Qed.
+
+(* ---- values: what forward evaluates vs the documented formula ---- *)
+Lemma l1_val_doc w b x : l1_val w b x = Rabs w * Rabs (x - b).
+Proof. unfold l1_val. apply Rabs_mult. Qed.
+
+Lemma cl1_val_doc w b x : cl1_val w b x = cabs w * cabs (csub x b).
+Proof. unfold cl1_val. apply cabs_mul. Qed.
+
+Lemma l2_val_doc w b x : l2_val w b x = sq (Rabs w) * sq (Rabs (x - b)).
+Proof.
+  rewrite l2_val_alt. unfold sq. unfold Rabs. destruct (Rcase_abs w), (Rcase_abs (x - b)); ring.
+Qed.
+
+Lemma cl2_val_doc w b x : cl2_val w b x = sq (cabs w) * sq (cabs (csub x b)).
+Proof. rewrite cl2_val_alt. unfold sq. rewrite !cabs_sq. reflexivity. Qed.
+
+(* L1NormViewAsReal.forward agrees with the documented  |Wr Re(x-b)| + |Wi Im(x-b)|  (Wi = Wr for a real weight, im w = 0)
+   unless the weight is complex while x and target are real tensors *)
+Lemma l1r_val_code_ok (wc dc : bool) w b x :
+  (wc = false -> snd w = 0) -> (dc = false -> snd x = 0 /\ snd b = 0) -> (wc = true -> dc = true) ->
+  l1r_val_code wc dc w b x = l1r_val (fst w) (if wc then snd w else fst w) b x.
+Proof.
+  intros Hw Hd Hg. unfold l1r_val_code, l1r_val, csub; cbn [fst snd].
+  destruct dc, wc; try reflexivity.
+  - discriminate (Hg eq_refl).
+  - destruct (Hd eq_refl) as [-> ->]. replace (fst w * (0 - 0)) with 0 by ring. rewrite Rabs_R0. ring.
+Qed.
+
+Lemma l1r_val_code_refuted : exists w b x,
+  snd x = 0 /\ snd b = 0 /\ l1r_val_code true false w b x <> l1r_val (fst w) (snd w) b x.
+Proof.
+  exists (3, 4), (0, 0), (1, 0). split; [reflexivity|split; [reflexivity|]].
+  unfold l1r_val_code, l1r_val, csub; cbn [fst snd].
+  assert (E : cabs (cmul (3, 4) (1 - 0, 0)) = 5).
+  { apply cabs_unique; [lra|]. unfold cnorm2, cmul; cbn [fst snd]. ring. }
+  rewrite E. replace (3 * (1 - 0)) with 3 by ring. replace (4 * (0 - 0)) with 0 by ring.
+  rewrite Rabs_R0, (Rabs_pos_eq 3) by lra. lra.
+Qed.
+
+(* ---- sums over index lists ---- *)
+Lemma sumR_le {A} (g h : A -> R) l : (forall a, In a l -> g a <= h a) -> sumR g l <= sumR h l.
+Proof.
+  induction l as [|a r IH]; intros H; cbn [sumR]; [lra|].
+  pose proof (H a (or_introl eq_refl)). assert (sumR g r <= sumR h r) by (apply IH; intros; apply H; right; assumption). lra.
+Qed.
+
+Lemma sumR_plus {A} (g h : A -> R) l : sumR (fun a => g a + h a) l = sumR g l + sumR h l.
+Proof. induction l as [|a r IH]; cbn [sumR]; [ring|]. rewrite IH. ring. Qed.
+
+Lemma sumR_scal {A} c (g : A -> R) l : sumR (fun a => c * g a) l = c * sumR g l.
+Proof. induction l as [|a r IH]; cbn [sumR]; [ring|]. rewrite IH. ring. Qed.
+
+Lemma sumR_ext {A} (g h : A -> R) l : (forall a, In a l -> g a = h a) -> sumR g l = sumR h l.
+Proof.
+  induction l as [|a r IH]; intros H; cbn [sumR]; [reflexivity|].
+  rewrite (H a (or_introl eq_refl)), IH; [reflexivity|]. intros; apply H; right; assumption.
+Qed.
+
+Lemma sumR_app {A} (g : A -> R) l1 l2 : sumR g (l1 ++ l2) = sumR g l1 + sumR g l2.
+Proof. induction l1 as [|a r IH]; cbn [sumR app]; [ring|]. rewrite IH. ring. Qed.
+
+(* the separable objective: if each element is minimised, the sum over any index list is minimised
+   (a reduced batch, a whole tensor, or all tensors of a separable sum) *)
+Lemma lift_opt {A} (o : A -> R) (o' : A -> R) l : (forall a, In a l -> o a <= o' a) -> sumR o l <= sumR o' l.
+Proof. apply sumR_le. Qed.
+
+(* with one sigma for the whole list the summed elementwise objective is  sigma * f(p) + 1/2 |x - p|^2  with
+   f(p) = (sum_i val_i (p_i)) / n *)
+Lemma sum_obj {A} sigma n (v : A -> R) (x p : A -> R) l :
+  sumR (fun i => obj sigma (v i / n) (x i) (p i)) l = sigma * (sumR v l / n) + / 2 * sumR (fun i => sq (x i - p i)) l.
+Proof.
+  unfold obj. rewrite sumR_plus. f_equal.
+  - rewrite sumR_scal. f_equal. unfold Rdiv.
+    rewrite (Rmult_comm (sumR v l)). rewrite <- sumR_scal. apply sumR_ext. intros; ring.
+  - rewrite sumR_scal. reflexivity.
+Qed.
+
+Lemma sum_cobj {A} sigma n (v : A -> R) (x p : A -> C) l :
+  sumR (fun i => cobj sigma (v i / n) (x i) (p i)) l = sigma * (sumR v l / n) + / 2 * sumR (fun i => cnorm2 (csub (x i) (p i))) l.
+Proof.
+  unfold cobj. rewrite sumR_plus. f_equal.
+  - rewrite sumR_scal. f_equal. unfold Rdiv.
+    rewrite (Rmult_comm (sumR v l)). rewrite <- sumR_scal. apply sumR_ext. intros; ring.
+  - rewrite sumR_scal. reflexivity.
+Qed.
+
+(* torch.mean = sum / number of reduced elements *)
+Lemma reduce_list_mean {A} (g : A -> R) l : reduce_list true g l = sumR g l / INR (length l).
+Proof. reflexivity. Qed.
+Lemma reduce_list_sum {A} (g : A -> R) l : reduce_list false g l = sumR g l.
+Proof. reflexivity. Qed.
+
+(* ---- scaled functionals ---- *)
+Definition is_opt (f : R -> R) (prox : R -> R -> R) :=
+  forall sigma x p, 0 <= sigma -> obj sigma (f (prox sigma x)) x (prox sigma x) <= obj sigma (f p) x p.
+Definition is_copt (f : C -> R) (prox : R -> C -> C) :=
+  forall sigma x p, 0 <= sigma -> cobj sigma (f (prox sigma x)) x (prox sigma x) <= cobj sigma (f p) x p.
+Definition moreau (prox pcc : R -> R -> R) := forall sigma x, 0 < sigma -> x = prox sigma x + sigma * pcc (/ sigma) (x / sigma).
+Definition cmoreau (prox pcc : R -> C -> C) :=
+  forall sigma x, 0 < sigma -> x = cadd (prox sigma x) (cscale sigma (pcc (/ sigma) (cscale (/ sigma) x))).
+
+Lemma scaled_opt a f prox : 0 <= a -> is_opt f prox -> is_opt (fun x => a * f x) (sc_prox a prox).
+Proof.
+  intros Ha H sigma x p Hs. unfold sc_prox, obj.
+  assert (Hsa : 0 <= sigma * a) by (apply Rmult_le_pos; assumption).
+  pose proof (H (sigma * a) x p Hsa) as H0. unfold obj in H0. lra.
+Qed.
+
+Lemma scaled_copt a f prox : 0 <= a -> is_copt f prox -> is_copt (fun x => a * f x) (sc_prox a prox).
+Proof.
+  intros Ha H sigma x p Hs. unfold sc_prox, cobj.
+  assert (Hsa : 0 <= sigma * a) by (apply Rmult_le_pos; assumption).
+  pose proof (H (sigma * a) x p Hsa) as H0. unfold cobj in H0. lra.
+Qed.
+
+Lemma scaled_moreau a prox pcc : 0 < a -> moreau prox pcc -> moreau (sc_prox a prox) (sc_pcc a pcc).
+Proof.
+  intros Ha H sigma x Hs. unfold sc_prox, sc_pcc.
+  assert (Hsa : 0 < sigma * a) by (apply Rmult_lt_0_compat; assumption).
+  pose proof (H (sigma * a) x Hsa) as H0.
+  replace (/ sigma / a) with (/ (sigma * a)) by (field; lra).
+  replace (x / sigma / a) with (x / (sigma * a)) by (field; lra). lra.
+Qed.
+
+Lemma scaled_cmoreau a prox pcc : 0 < a -> cmoreau prox pcc -> cmoreau (sc_prox a prox) (csc_pcc a pcc).
+Proof.
+  intros Ha H sigma x Hs. unfold sc_prox, csc_pcc.
+  assert (Hsa : 0 < sigma * a) by (apply Rmult_lt_0_compat; assumption).
+  pose proof (H (sigma * a) x Hsa) as H0.
+  replace (/ sigma / a) with (/ (sigma * a)) by (field; lra).
+  rewrite !cscale_cscale. replace (/ a * / sigma) with (/ (sigma * a)) by (field; lra). exact H0.
+Qed.
+
+(* ------------------------------------------------------------------------------------------------ *)
+(* lifting to tensors: any list [l] of element indices (a reduced batch or the whole tensor), after  *)
+(* broadcasting every element i has its own weight w i, target b i and sigma i; n is common          *)
+(* ------------------------------------------------------------------------------------------------ *)
+Section Lift.
+  Context {A : Type}.
+  Variable l : list A.
+  Variable n : R.
+  Hypothesis Hn : 0 < n.
+
+  Lemma l1_prox_opt_list (w b sigma x p : A -> R) : (forall i, In i l -> 0 <= sigma i) ->
+    sumR (fun i => obj (sigma i) (l1_val (w i) (b i) (l1_prox n (w i) (b i) (sigma i) (x i)) / n) (x i) (l1_prox n (w i) (b i) (sigma i) (x i))) l
+    <= sumR (fun i => obj (sigma i) (l1_val (w i) (b i) (p i) / n) (x i) (p i)) l.
+  Proof. intros Hs. apply sumR_le. intros i Hi. apply l1_prox_opt; [exact Hn|apply Hs, Hi]. Qed.
+
+  Lemma l2_prox_opt_list (w b sigma x p : A -> R) : (forall i, In i l -> 0 <= sigma i) ->
+    sumR (fun i => obj (sigma i) (l2_val (w i) (b i) (l2_prox n (w i) (b i) (sigma i) (x i)) / n) (x i) (l2_prox n (w i) (b i) (sigma i) (x i))) l
+    <= sumR (fun i => obj (sigma i) (l2_val (w i) (b i) (p i) / n) (x i) (p i)) l.
+  Proof. intros Hs. apply sumR_le. intros i Hi. apply l2_prox_opt; [exact Hn|apply Hs, Hi]. Qed.
+
+  Lemma cl1_prox_opt_list (w b : A -> C) (sigma : A -> R) (x p : A -> C) : (forall i, In i l -> 0 <= sigma i) ->
+    sumR (fun i => cobj (sigma i) (cl1_val (w i) (b i) (cl1_prox n (w i) (b i) (sigma i) (x i)) / n) (x i) (cl1_prox n (w i) (b i) (sigma i) (x i))) l
+    <= sumR (fun i => cobj (sigma i) (cl1_val (w i) (b i) (p i) / n) (x i) (p i)) l.
+  Proof. intros Hs. apply sumR_le. intros i Hi. apply cl1_prox_opt; [exact Hn|apply Hs, Hi]. Qed.
+
+  Lemma cl2_prox_opt_list (w b : A -> C) (sigma : A -> R) (x p : A -> C) : (forall i, In i l -> 0 <= sigma i) ->
+    sumR (fun i => cobj (sigma i) (cl2_val (w i) (b i) (cl2_prox n (w i) (b i) (sigma i) (x i)) / n) (x i) (cl2_prox n (w i) (b i) (sigma i) (x i))) l
+    <= sumR (fun i => cobj (sigma i) (cl2_val (w i) (b i) (p i) / n) (x i) (p i)) l.
+  Proof. intros Hs. apply sumR_le. intros i Hi. apply cl2_prox_opt; [exact Hn|apply Hs, Hi]. Qed.
+
+  Lemma l1r_prox_opt_list (wr wi : A -> R) (b : A -> C) (sigma : A -> R) (x p : A -> C) : (forall i, In i l -> 0 <= sigma i) ->
+    sumR (fun i => cobj (sigma i) (l1r_val (wr i) (wi i) (b i) (l1r_prox n (wr i) (wi i) (b i) (sigma i) (x i)) / n) (x i) (l1r_prox n (wr i) (wi i) (b i) (sigma i) (x i))) l
+    <= sumR (fun i => cobj (sigma i) (l1r_val (wr i) (wi i) (b i) (p i) / n) (x i) (p i)) l.
+  Proof. intros Hs. apply sumR_le. intros i Hi. apply l1r_prox_opt; [exact Hn|apply Hs, Hi]. Qed.
+
+  (* one sigma for the list: sigma * f(prox) + 1/2 |x - prox|^2 <= sigma * f(p) + 1/2 |x - p|^2 with
+     f(p) = (sum_i |w_i (p_i - b_i)|) / n, i.e. the forward value of the batch (n = N if divide_by_n else 1) *)
+  Lemma l1_prox_opt_batch (w b x p : A -> R) sigma : 0 <= sigma ->
+    let q := fun i => l1_prox n (w i) (b i) sigma (x i) in
+    sigma * (sumR (fun i => l1_val (w i) (b i) (q i)) l / n) + / 2 * sumR (fun i => sq (x i - q i)) l
+    <= sigma * (sumR (fun i => l1_val (w i) (b i) (p i)) l / n) + / 2 * sumR (fun i => sq (x i - p i)) l.
+  Proof.
+    intros Hs q. rewrite <- (sum_obj sigma n (fun i => l1_val (w i) (b i) (q i)) x q).
+    rewrite <- (sum_obj sigma n (fun i => l1_val (w i) (b i) (p i)) x p).
+    apply (l1_prox_opt_list w b (fun _ => sigma) x p). intros; assumption.
+  Qed.
+
+  Lemma l2_prox_opt_batch (w b x p : A -> R) sigma : 0 <= sigma ->
+    let q := fun i => l2_prox n (w i) (b i) sigma (x i) in
+    sigma * (sumR (fun i => l2_val (w i) (b i) (q i)) l / n) + / 2 * sumR (fun i => sq (x i - q i)) l
+    <= sigma * (sumR (fun i => l2_val (w i) (b i) (p i)) l / n) + / 2 * sumR (fun i => sq (x i - p i)) l.
+  Proof.
+    intros Hs q. rewrite <- (sum_obj sigma n (fun i => l2_val (w i) (b i) (q i)) x q).
+    rewrite <- (sum_obj sigma n (fun i => l2_val (w i) (b i) (p i)) x p).
+    apply (l2_prox_opt_list w b (fun _ => sigma) x p). intros; assumption.
+  Qed.
+
+  Lemma cl1_prox_opt_batch (w b x p : A -> C) sigma : 0 <= sigma ->
+    let q := fun i => cl1_prox n (w i) (b i) sigma (x i) in
+    sigma * (sumR (fun i => cl1_val (w i) (b i) (q i)) l / n) + / 2 * sumR (fun i => cnorm2 (csub (x i) (q i))) l
+    <= sigma * (sumR (fun i => cl1_val (w i) (b i) (p i)) l / n) + / 2 * sumR (fun i => cnorm2 (csub (x i) (p i))) l.
+  Proof.
+    intros Hs q. rewrite <- (sum_cobj sigma n (fun i => cl1_val (w i) (b i) (q i)) x q).
+    rewrite <- (sum_cobj sigma n (fun i => cl1_val (w i) (b i) (p i)) x p).
+    apply (cl1_prox_opt_list w b (fun _ => sigma) x p). intros; assumption.
+  Qed.
+
+  Lemma cl2_prox_opt_batch (w b x p : A -> C) sigma : 0 <= sigma ->
+    let q := fun i => cl2_prox n (w i) (b i) sigma (x i) in
+    sigma * (sumR (fun i => cl2_val (w i) (b i) (q i)) l / n) + / 2 * sumR (fun i => cnorm2 (csub (x i) (q i))) l
+    <= sigma * (sumR (fun i => cl2_val (w i) (b i) (p i)) l / n) + / 2 * sumR (fun i => cnorm2 (csub (x i) (p i))) l.
+  Proof.
+    intros Hs q. rewrite <- (sum_cobj sigma n (fun i => cl2_val (w i) (b i) (q i)) x q).
+    rewrite <- (sum_cobj sigma n (fun i => cl2_val (w i) (b i) (p i)) x p).
+    apply (cl2_prox_opt_list w b (fun _ => sigma) x p). intros; assumption.
+  Qed.
+
+  Lemma l1r_prox_opt_batch (wr wi : A -> R) (b x p : A -> C) sigma : 0 <= sigma ->
+    let q := fun i => l1r_prox n (wr i) (wi i) (b i) sigma (x i) in
+    sigma * (sumR (fun i => l1r_val (wr i) (wi i) (b i) (q i)) l / n) + / 2 * sumR (fun i => cnorm2 (csub (x i) (q i))) l
+    <= sigma * (sumR (fun i => l1r_val (wr i) (wi i) (b i) (p i)) l / n) + / 2 * sumR (fun i => cnorm2 (csub (x i) (p i))) l.
+  Proof.
+    intros Hs q. rewrite <- (sum_cobj sigma n (fun i => l1r_val (wr i) (wi i) (b i) (q i)) x q).
+    rewrite <- (sum_cobj sigma n (fun i => l1r_val (wr i) (wi i) (b i) (p i)) x p).
+    apply (l1r_prox_opt_list wr wi b (fun _ => sigma) x p). intros; assumption.
+  Qed.
+End Lift.
+
+(* ---- separable sum: sum_k f_k(x_k); prox and prox_convex_conj act componentwise with the same sigma ---- *)
+(* a component is (f, prox, x, p); the summed objective is minimised when every component is *)
+Lemma separable_opt (comps : list ((R -> R) * (R -> R -> R) * R * R)) sigma : 0 <= sigma ->
+  (forall c, In c comps -> is_opt (fst (fst (fst c))) (snd (fst (fst c)))) ->
+  sigma * sumR (fun c => let '(f, prox, x, p) := c in f (prox sigma x)) comps
+    + / 2 * sumR (fun c => let '(f, prox, x, p) := c in sq (x - prox sigma x)) comps
+  <= sigma * sumR (fun c => let '(f, prox, x, p) := c in f p) comps
+    + / 2 * sumR (fun c => let '(f, prox, x, p) := c in sq (x - p)) comps.
+Proof.
+  intros Hs H. rewrite <- !sumR_scal, <- !sumR_plus. apply sumR_le.
+  intros [[[f prox] x] p] Hc. pose proof (H _ Hc sigma x p Hs) as H0. unfold obj in H0. cbn in *. lra.
+Qed.
+
+Lemma separable_copt (comps : list ((C -> R) * (R -> C -> C) * C * C)) sigma : 0 <= sigma ->
+  (forall c, In c comps -> is_copt (fst (fst (fst c))) (snd (fst (fst c)))) ->
+  sigma * sumR (fun c => let '(f, prox, x, p) := c in f (prox sigma x)) comps
+    + / 2 * sumR (fun c => let '(f, prox, x, p) := c in cnorm2 (csub x (prox sigma x))) comps
+  <= sigma * sumR (fun c => let '(f, prox, x, p) := c in f p) comps
+    + / 2 * sumR (fun c => let '(f, prox, x, p) := c in cnorm2 (csub x p)) comps.
+Proof.
+  intros Hs H. rewrite <- !sumR_scal, <- !sumR_plus. apply sumR_le.
+  intros [[[f prox] x] p] Hc. pose proof (H _ Hc sigma x p Hs) as H0. unfold cobj in H0. cbn in *. lra.
+Qed.
+
+(* instances of is_opt / moreau for the elementary functionals (value already divided by n) *)
+Lemma l1_is_opt n w b : 0 < n -> is_opt (fun x => l1_val w b x / n) (l1_prox n w b).
+Proof. intros Hn sigma x p Hs. apply l1_prox_opt; assumption. Qed.
+Lemma l2_is_opt n w b : 0 < n -> is_opt (fun x => l2_val w b x / n) (l2_prox n w b).
+Proof. intros Hn sigma x p Hs. apply l2_prox_opt; assumption. Qed.
+Lemma zero_is_opt : is_opt zero_val zero_prox.
+Proof. intros sigma x p Hs. apply zero_prox_opt. Qed.
+Lemma cl1_is_copt n w b : 0 < n -> is_copt (fun x => cl1_val w b x / n) (cl1_prox n w b).
+Proof. intros Hn sigma x p Hs. apply cl1_prox_opt; assumption. Qed.
+Lemma cl2_is_copt n w b : 0 < n -> is_copt (fun x => cl2_val w b x / n) (cl2_prox n w b).
+Proof. intros Hn sigma x p Hs. apply cl2_prox_opt; assumption. Qed.
+Lemma l1r_is_copt n wr wi b : 0 < n -> is_copt (fun x => l1r_val wr wi b x / n) (l1r_prox n wr wi b).
+Proof. intros Hn sigma x p Hs. apply l1r_prox_opt; assumption. Qed.
+Lemma l1_is_moreau n w b : 0 < n -> moreau (l1_prox n w b) (l1_pcc n w b).
+Proof. intros Hn sigma x Hs. apply l1_moreau; assumption. Qed.
+Lemma l2_is_moreau n w b : 0 < n -> moreau (l2_prox n w b) (l2_pcc n w b).
+Proof. intros Hn sigma x Hs. apply l2_moreau; assumption. Qed.
+Lemma cl1_is_cmoreau n w b : 0 < n -> cmoreau (cl1_prox n w b) (cl1_pcc n w b).
+Proof. intros Hn sigma x Hs. apply cl1_moreau; assumption. Qed.
+Lemma cl2_is_cmoreau n w b : 0 < n -> cmoreau (cl2_prox n w b) (cl2_pcc n w b).
+Proof. intros Hn sigma x Hs. apply cl2_moreau; assumption. Qed.
+
+(* the divide_by_n factor is positive *)
+Lemma nfac_pos divn N : (0 < N)%nat -> 0 < nfac divn N.
+Proof. intros H. unfold nfac. destruct divn; [apply lt_0_INR; assumption|lra]. Qed.
